@@ -13,6 +13,9 @@ _choiceE = by_id("choice.E")
 _bits = T("BITS")
 _hi = T("INT").tagged(("I", "A", 16384))
 _nest = by_id("seq_nest")
+_e40 = T("INT").tagged(("E", "C", 40))
+_e100 = T("INT").tagged(("E", "C", 100))
+_e40o = T("OCTS").tagged(("E", "C", 16384))
 
 V_SEQ = {"a": 5, "b": b"xy", "c": False, "d": "Ж".encode("utf-8")}
 V_SET = {"a": 300, "b": b"q", "d": ("y", (1, 3, 6, 1, 4, 1, 99999)), "e": -2}
@@ -51,8 +54,10 @@ STREAMS = [
     S("bits_chunked", [_item(_bits, (21, 0x155555), _ber(_bits, (21, 0x155555), defMode=False, maxChunkSize=1))], "indefinite chunked BIT STRING"),
     S("choice_expl_indef", [_item(_choiceE.t, ("y", b"hi"), _ber(_choiceE.t, ("y", b"hi"), defMode=False))] * 2, "explicitly tagged CHOICE, indefinite, twice"),
     S("hi_tag", [_item(_hi, -70000, _ber(_hi, -70000))], "[APPLICATION 16384] IMPLICIT INTEGER"),
+    S("hi_tags_x3", [_item(_e40, 5, _ber(_e40, 5), False), _item(_e100, 7, _ber(_e100, 7), False), _item(_e40o, b"hi", _ber(_e40o, b"hi"), False)],
+      "three schemaless items under different long-form EXPLICIT tags of one class"),
     S("nest_indef", [_item(_nest.t, V_NEST, _ber(_nest.t, V_NEST, defMode=False))], "nested SEQUENCE / SEQUENCE OF / [7] EXPLICIT SET, all indefinite"),
     S("der_seq_x2", [_item(_seq.t, V_SEQ, der_encoder.encode(build(_seq.t, V_SEQ))), _item(_seq.t, {"a": 0}, der_encoder.encode(build(_seq.t, {"a": 0})))], "two guided DER SEQUENCEs"),
 ]
 BY_ID = dict((s.id, s) for s in STREAMS)
-QUICK = ["der_seq", "ber_indef_chunked", "cer_set", "two_ints_octs", "bits_chunked", "choice_expl_indef", "hi_tag", "der_seq_x2"]
+QUICK = ["der_seq", "ber_indef_chunked", "cer_set", "two_ints_octs", "bits_chunked", "choice_expl_indef", "hi_tag", "der_seq_x2", "hi_tags_x3"]
